@@ -259,6 +259,9 @@ func opMutate(g *G, name string) (interface{}, []uint64, int, interface{}) {
 		res, err = runMutation(name, gn, pop, opts, times, power, rate, cold)
 	})
 	out := map[string]interface{}{"res": res, "err": errClass(err, pan), "g": dumpGenome(gn), "reg": dumpReg(pop)}
+	if err == nil && pan == nil {
+		out["genesis"] = genesisClass(gn)
+	}
 	in := map[string]interface{}{"g": before, "reg": regBefore, "opts": dumpMutOpts(opts), "times": times,
 		"power": bits(power), "rate": bits(rate), "cold": cold, "family": family, "regMode": regMode}
 	return in, stream, consumed, out
@@ -323,6 +326,7 @@ func opMate(g *G, method string) (interface{}, []uint64, int, interface{}) {
 	out := map[string]interface{}{"err": errClass(err, pan), "p1After": dumpGenome(a), "p2After": dumpGenome(b)}
 	if err == nil && pan == nil && child != nil {
 		out["child"] = dumpGenome(child)
+		out["genesis"] = genesisClass(child)
 		out["sharedP1"] = sharesState(a, child)
 		out["sharedP2"] = sharesState(b, child)
 	}
